@@ -98,6 +98,9 @@ def gen(rng, tier, i):
         host, hclass = hostile_host(rng)
     elif kind == "ipv4":
         host, hclass = ("10.9.%d.%d" % (rng.randint(0, 255), rng.randint(1, 254))).encode(), "ipv4"
+        if outb != "direct" and rng.random() < 0.3:
+            # IPv4 addresses next to the SOCKS4a marker range 0.0.0.x (x != 0), and other special ones
+            host, hclass = rng.choice([b"0.0.0.0", b"0.0.1.0", b"0.1.0.0", b"1.0.0.0", b"255.255.255.255", b"127.0.0.1", b"0.0.1.1"]), "ipv4-special"
     else:
         host, hclass = ("fd09::%x" % rng.randint(1, 65535)).encode(), "ipv6"
         if outb != "direct" and rng.random() < 0.4:
@@ -173,6 +176,9 @@ def gen(rng, tier, i):
         proto = "http"
     elif inb == "socks4a":
         req = rc.socks4_request(1, host if kind == "domain" else host.decode(), port, b"u")
+        if rng.random() < 0.5:
+            # payload pipelined behind the request (it may contain anything, also what looks like a SOCKS4a name)
+            req += b"evil.sim\0" + marker
         ops = [send(req), op("recv_n", n=8, label="reply", on_fail="continue", timeout_ms=6000), op("recv_eof", timeout_ms=9000, label="rest", on_fail="continue")]
         proto = "socks4a"
     elif inb == "socks5":
